@@ -4,7 +4,7 @@ CONSTANTS
   NW = 3
   NF = 2
   MaxFaults = 3
-  Ops = {"build_stream", "build_buf", "compact"}
+  Ops = {"build_stream", "build_buf", "compact", "rebuild", "create"}
   Strategy = "temp"
   SkipUnreadable = FALSE
   StrictErr = FALSE
